@@ -111,6 +111,22 @@ def learned_stream(rs, tier):
                                     conj_len=cfg["conj_len"], arity=cfg["arity"], random_seed=cfg["seed"])
             return root, X.shape[1], None
         out.append(("xpc", cfg, f, cfg["sd"]))
+    # wide data, few rows: the members of a structured-decomposable ensemble stop partitioning at different depths
+    for i in range(10 if tier == "quick" else 60):
+        cfg = dict(det=bool(i % 2), sd=True, sd_level=2, ensemble=True, conj_len=int(rs.choice([2, 2, 3])), arity=int(rs.choice([2, 3, 4])),
+                   min_part_inst=int(rs.choice([30, 40, 60])), n=int(rs.choice([300, 400, 500])), d=int(rs.randint(11, 15)),
+                   ensemble_dim=int(rs.choice([3, 5])), seed=int(rs.randint(1000)), wide=True)
+        def f(cfg=cfg):
+            z = rs.rand(cfg["n"], 3) < 0.5
+            cols = []
+            for j in range(cfg["d"]):
+                flip = rs.rand(cfg["n"]) < (0.1 + 0.3 * rs.rand())
+                cols.append(np.where(flip, ~z[:, j % 3], z[:, j % 3]))
+            X = np.stack(cols, axis=1).astype(np.float32)
+            root, _ = learn_expc(X, ensemble_dim=cfg["ensemble_dim"], det=cfg["det"], sd_level=2, min_part_inst=cfg["min_part_inst"],
+                                 conj_len=cfg["conj_len"], arity=cfg["arity"], random_seed=cfg["seed"])
+            return root, X.shape[1], None
+        out.append(("xpc", cfg, f, True))
     return out
 
 
